@@ -545,6 +545,158 @@ def resolution(reg, only_files):
     return sorted(set(rows))
 
 
+# ---- discrete operators (C14_discrete_algebra) ------------------------------------------------------------------
+def dtm(src, node, fields):
+    """Bodies of to_dense / _matvec of the composite discrete classes -> DiscLang.dtm"""
+    def side(n):
+        if isinstance(n, ast.Attribute) and u(n.value) == "self" and n.attr in fields:
+            return fields[n.attr]
+        src.fail(n, "unknown operand " + u(n))
+    if isinstance(node, ast.Name) and node.id == "x":
+        return "XArg"
+    if u(node) == "self._alpha":
+        return "XAlpha"
+    if isinstance(node, ast.Call) and isinstance(node.func, ast.Attribute) and node.func.attr == "to_dense" \
+            and not node.args:
+        return "(XDense %s)" % side(node.func.value)
+    if isinstance(node, ast.BinOp):
+        if isinstance(node.op, ast.Add):
+            return "(XAdd %s %s)" % (dtm(src, node.left, fields), dtm(src, node.right, fields))
+        if isinstance(node.op, ast.MatMult):
+            l = node.left
+            if isinstance(l, ast.Attribute) and u(l.value) == "self" and l.attr in fields and fields[l.attr] != "ALPHA":
+                return "(XApply %s %s)" % (side(l), dtm(src, node.right, fields))
+            return "(XMatMul %s %s)" % (dtm(src, node.left, fields), dtm(src, node.right, fields))
+        if isinstance(node.op, ast.Mult):
+            return "(XScale %s %s)" % (dtm(src, node.left, fields), dtm(src, node.right, fields))
+    src.fail(node, "unrecognised discrete term " + u(node))
+
+
+def discrete(ctx, lines, info):
+    src = Src(ctx, FILES["discrete"])
+    specs = [("_ScaledDiscreteOperator", {"op": "SL"}), ("_SumDiscreteOperator", {"op1": "SL", "op2": "SR"}),
+             ("_ProductDiscreteOperator", {"op1": "SL", "op2": "SR"})]
+    names = []
+    for cname, args in specs:
+        fields = ctor_fields(src, cname, args)
+        init = src.method(cname, "__init__")
+        guards = [s for s in body_of(init) if isinstance(s, ast.If)]
+        g = "SGNone"
+        if guards:
+            if len(guards) != 1 or not isinstance(guards[0].body[0], ast.Raise):
+                src.fail(init, "unrecognised guard in %s" % cname)
+            t = u(guards[0].test)
+            known = {"op1.shape != op2.shape": "SGSameShape", "op1.shape[1] != op2.shape[0]": "SGInner"}
+            if t not in known:
+                src.fail(guards[0], "unrecognised shape guard " + t)
+            g = known[t]
+        sup = [s for s in body_of(init) if isinstance(s, ast.Expr) and u(s.value).startswith("super().__init__(")]
+        if len(sup) != 1:
+            src.fail(init, "no super().__init__ in %s" % cname)
+        shp = u(sup[0].value.args[1])
+        shapes = {"op.shape": "ShLeft", "op1.shape": "ShLeft", "(op1.shape[0], op2.shape[1])": "ShOuter"}
+        if shp not in shapes:
+            src.fail(sup[0], "unrecognised result shape " + shp)
+        dense = dtm(src, single_return(src, src.method(cname, "to_dense")), fields)
+        mv = dtm(src, single_return(src, src.method(cname, "_matvec")), fields)
+        coq = cname.strip("_")
+        names.append(coq)
+        lines.append('Definition %s : dclass := {| dc_name := "%s"; dc_guard := %s; dc_shape := %s;\n  dc_dense := %s;\n'
+                     '  dc_matvec := %s |}.' % (coq, cname, g, shapes[shp], dense, mv))
+        info["classes"][cname] = {"guard": g, "dense": dense, "matvec": mv}
+    lines.append("Definition discrete_classes : list dclass := [%s]." % "; ".join(names))
+    # dunders of _DiscreteOperatorBase
+    base = "_DiscreteOperatorBase"
+    sc = Scope(src, {"self": "SSelf", "other": "SR"})
+    add = [u(x) for x in body_of(src.method(base, "__add__"))]
+    if add != ["if isinstance(other, _DiscreteOperatorBase):\n    return _SumDiscreteOperator(self, other)\nelse:\n"
+               "    return super().__add__(other)"]:
+        src.fail(src.method(base, "__add__"), "_DiscreteOperatorBase.__add__ changed")
+    neg = u(single_return(src, src.method(base, "__neg__")))
+    sub = u(single_return(src, src.method(base, "__sub__")))
+    if neg != "_ScaledDiscreteOperator(self, -1)" or sub != "self.__add__(-other)":
+        src.fail(src.method(base, "__neg__"), "__neg__/__sub__ changed")
+    dot = [u(x) for x in body_of(src.method(base, "dot"))]
+    if dot != ["if isinstance(other, _DiscreteOperatorBase):\n    return _ProductDiscreteOperator(self, other)\n"
+               "elif _np.isscalar(other):\n    return _ScaledDiscreteOperator(self, other)\nelse:\n"
+               "    return super().dot(other)"]:
+        src.fail(src.method(base, "dot"), "_DiscreteOperatorBase.dot changed")
+    if u(single_return(src, src.method(base, "__mul__"))) != "self.dot(other)":
+        src.fail(src.method(base, "__mul__"), "__mul__ changed")
+    # real operator x complex vector: Generic / Dense / Sparse
+    gen = [u(x) for x in body_of(src.method("GenericDiscreteBoundaryOperator", "_matvec"))]
+    want = ["if self._is_complex:\n    return self._evaluator.matvec(x)",
+            "if _np.iscomplexobj(x):\n    return self._evaluator.matvec(_np.real(x)) + 1j * self._evaluator.matvec(_np.imag(x))\n"
+            "else:\n    return self._evaluator.matvec(x)"]
+    if gen != want:
+        src.fail(src.method("GenericDiscreteBoundaryOperator", "_matvec"), "real/complex splitting changed")
+    den = [u(x) for x in body_of(src.method("DenseDiscreteBoundaryOperator", "_matmat"))]
+    want = ["if _np.iscomplexobj(x) and (not _np.iscomplexobj(self.to_dense())):\n    return self.to_dense().dot(_np.real(x)"
+            ".astype(self.dtype)) + 1j * self.to_dense().dot(_np.imag(x).astype(self.dtype))",
+            "return self.to_dense().dot(x.astype(self.dtype))"]
+    if den != want:
+        src.fail(src.method("DenseDiscreteBoundaryOperator", "_matmat"), "dense real/complex splitting changed")
+    spm = [u(x) for x in body_of(src.method("SparseDiscreteBoundaryOperator", "_matmat"))]
+    want = ["if self.dtype == 'float64' and _np.iscomplexobj(vec):\n    return self.to_sparse() * _np.real(vec) + 1j * "
+            "(self.to_sparse() * _np.imag(vec))", "return self.to_sparse() * vec"]
+    if spm != want:
+        src.fail(src.method("SparseDiscreteBoundaryOperator", "_matmat"), "sparse real/complex splitting changed")
+    lines.append("Definition real_complex_split : bool := true.   (* A x = A re(x) + i A im(x) for real A, three classes *)")
+    return src
+
+
+# ---- blocked pack / unpack ---------------------------------------------------------------------------------------------
+def packing(ctx, lines, info):
+    src = Src(ctx, FILES["blocked"])
+    f = src.functions
+
+    def body(name):
+        if name not in f:
+            raise TieBroken("%s: function %s missing" % (src.rel, name))
+        return [u(x) for x in body_of(f[name])]
+    b = body("coefficients_from_grid_functions_list")
+    if "for item in grid_funs:\n    dof_count = item.space.global_dof_count\n    res[pos:pos + dof_count] = item.coefficients\n" \
+       "    pos += dof_count" not in b:
+        src.fail(f["coefficients_from_grid_functions_list"], "coefficient packing changed")
+    b = body("projections_from_grid_functions_list")
+    if not ("for item, proj_space in zip(grid_funs, projection_spaces):\n    projections.append(item.projections(proj_space))" in b
+            and "for item in projections:\n    dof_count = len(item)\n    res[pos:pos + dof_count] = item\n    pos += dof_count" in b):
+        src.fail(f["projections_from_grid_functions_list"], "projection packing changed")
+    b = body("grid_function_list_from_coefficients")
+    if "for space in spaces:\n    dof_count = space.global_dof_count\n    res_list.append(GridFunction(space, coefficients=" \
+       "coefficients[pos:pos + dof_count]))\n    pos += dof_count" not in b:
+        src.fail(f["grid_function_list_from_coefficients"], "coefficient unpacking changed")
+    b = body("grid_function_list_from_projections")
+    loop = [x for x in b if x.startswith("for space, dual in zip(spaces, dual_spaces):")]
+    sel = None
+    for who, name in (("space", "DimSpace"), ("dual", "DimDual")):
+        want = ("for space, dual in zip(spaces, dual_spaces):\n    dof_count = %s.global_dof_count\n    res_list.append("
+                "GridFunction(space, projections=projections[pos:pos + dof_count], dual_space=dual))\n    pos += dof_count" % who)
+        if loop == [want]:
+            sel = name
+    if sel is None:
+        src.fail(f["grid_function_list_from_projections"], "projection unpacking changed")
+    if "if dual_spaces is None:\n    dual_spaces = spaces" not in b:
+        src.fail(f["grid_function_list_from_projections"], "default dual spaces changed")
+    # BlockedOperatorBase.__mul__ with a list
+    mul = u(src.method("BlockedOperatorBase", "__mul__"))
+    for need in ("x_in = coefficients_from_grid_functions_list(list_input)", "res = weak_op * x_in",
+                 "output_list = grid_function_list_from_projections(res, self.range_spaces, self.dual_to_range_spaces)"):
+        if need not in mul:
+            src.fail(src.method("BlockedOperatorBase", "__mul__"), "blocked apply changed: missing `%s`" % need)
+    add = [u(x) for x in body_of(src.method("BlockedOperatorBase", "__add__"))]
+    ret = {"if not isinstance(other, BlockedOperatorBase):\n    return NotImplementedError": "AddReturnsErrorClass",
+           "if not isinstance(other, BlockedOperatorBase):\n    return NotImplemented": "AddNotImplemented"}
+    if len(add) != 2 or add[0] not in ret or add[1] != "return SumBlockedOperator(self, other)":
+        src.fail(src.method("BlockedOperatorBase", "__add__"), "BlockedOperatorBase.__add__ changed")
+    lines.append("Definition slice_projections_by : dimsel := %s.   (* grid_function_list_from_projections *)" % sel)
+    lines.append("Definition slice_coefficients_by : dimsel := DimSpace.")
+    lines.append("Definition blocked_add_foreign : addforeign := %s." % ret[add[0]])
+    info["slice_projections_by"] = sel
+    info["blocked_add_foreign"] = ret[add[0]]
+    return src
+
+
 def op_classes(ctx):
     lines = ["(* generated by translators/opclasses.py from %s -- do not edit *)" % ", ".join(sorted(FILES.values())),
              "From Coq Require Import List String.", "From BV Require Import Algebra.OpLang.",
@@ -554,6 +706,9 @@ def op_classes(ctx):
     lines[1:1] = []
     lines.insert(3, "From BV Require Import Algebra.PotLang.")
     psrc, asm = potential(ctx, lines, info)
+    lines.insert(4, "From BV Require Import Algebra.DiscLang.")
+    discrete(ctx, lines, info)
+    packing(ctx, lines, info)
     others = [Src(ctx, FILES[k]) for k in ("blocked", "discrete", "gridfun")]
     reg = Registry([bsrc, psrc, asm] + others)
     rows = resolution(reg, set(FILES.values()))
